@@ -348,11 +348,17 @@ RefusedNaming(p, o, paths) ==
 RunsWith(o, v)  == o.ran /\ o.status = 200 /\ o.set /\ (IF v.k = "null" THEN o.got.k = "nil" ELSE o.got.k # "nil" /\ Same(v, o.got))
 RunsUnbound(o)  == o.ran /\ o.status = 200 /\ (o.set => o.got.k = "nil")
 
+\* the operation may also declare a required integer query parameter q (p.q); rq.q = "ok" | "bad" | "" (not sent)
+OtherParamRefused(p, rq) == Get(p, "q", FALSE) /\ Get(rq, "q", "") # "ok"
+
 Allowed(p, rq, o) ==
   /\ ~o.panic
   /\ o.consumes <= 1                                   \* the body is handed to the consumer at most once
   /\ ~Bytes(rq) => o.consumes = 0
-  /\ IF ~Bytes(rq) \/ rq.syn = "ws"
+  /\ IF OtherParamRefused(p, rq)
+     THEN ~o.ran /\ o.status = 422 /\ Len(o.errs) >= 1     \* whichever parameter the answer names, the handler does not run
+     ELSE
+     IF ~Bytes(rq) \/ rq.syn = "ws"
      THEN \* no document: the default when one is declared; else "required" / unbound (no bytes); a blank body without
           \* default is refused as unreadable (named deviation BlankBodyIsUnreadable: the statement fixes only the default)
           IF p.hasDef THEN RunsWith(o, p.def)
@@ -373,6 +379,7 @@ Why(p, rq, o) ==
   ELSE IF o.status \notin {200, 422} THEN "status-neither-200-nor-422"
   ELSE IF o.status = 422 /\ o.ran THEN "422-but-handler-ran"
   ELSE IF o.status = 200 /\ ~o.ran THEN "200-but-handler-did-not-run"
+  ELSE IF OtherParamRefused(p, rq) THEN "handler-ran-although-another-parameter-is-invalid"
   ELSE IF ~Bytes(rq) \/ rq.syn = "ws" THEN
          IF p.hasDef THEN (IF o.ran THEN "handler-did-not-receive-the-default" ELSE "default-not-applied-to-missing-body")
          ELSE IF Bytes(rq) THEN (IF o.ran THEN "blank-body-accepted" ELSE "422-does-not-name-the-parameter")
